@@ -12,6 +12,7 @@ package c14
 
 import (
 	"bytes"
+	"crypto/dsa"
 	sdkecdh "crypto/ecdh"
 	"crypto/ecdsa"
 	"crypto/ed25519"
@@ -27,7 +28,7 @@ import (
 	"verif/harness/h"
 )
 
-var sdkTypes = []string{"ecdh-P256", "ecdh-P384", "ecdh-P521", "ecdh-X25519", "ed25519"}
+var sdkTypes = []string{"ecdh-P256", "ecdh-P384", "ecdh-P521", "ecdh-X25519", "ed25519", "dsa-public(parse-only)"}
 var sdkShapes = []string{"uniform", "lz1", "max"}
 
 type typeCase struct {
@@ -194,6 +195,9 @@ func checkKeyType(c typeCase, r *h.Rec) error {
 	r.Label("type:" + c.Type)
 	r.Label("shape:" + c.Shape)
 	r.NT()
+	if c.Type == "dsa-public(parse-only)" {
+		return checkDSAPublic(c, r)
+	}
 	k := makeSDKKey(c)
 
 	// ---- SubjectPublicKeyInfo
@@ -253,17 +257,20 @@ func checkKeyType(c typeCase, r *h.Rec) error {
 		// RFC 8410: CurvePrivateKey ::= OCTET STRING, wrapped in the privateKey OCTET STRING
 		return fmt.Errorf("%s: PrivateKeyInfo.privateKey %x is not OCTET STRING { %x }", c.Type, pr.kid(2).content(), k.rawPriv)
 	}
-	for name, parse := range map[string]func([]byte) (any, error){
-		"smx509.ParsePKCS8PrivateKey": smx509.ParsePKCS8PrivateKey,
-		"pkcs8.ParsePKCS8PrivateKey":  func(b []byte) (any, error) { return pkcs8.ParsePKCS8PrivateKey(b) },
-		"crypto/x509":                 x509.ParsePKCS8PrivateKey,
+	for _, pp := range []struct {
+		name  string
+		parse func([]byte) (any, error)
+	}{
+		{"smx509.ParsePKCS8PrivateKey", smx509.ParsePKCS8PrivateKey},
+		{"pkcs8.ParsePKCS8PrivateKey", func(b []byte) (any, error) { return pkcs8.ParsePKCS8PrivateKey(b) }},
+		{"crypto/x509", x509.ParsePKCS8PrivateKey},
 	} {
-		got, err := parse(append([]byte{}, p8...))
+		got, err := pp.parse(append([]byte{}, p8...))
 		if err != nil {
-			return fmt.Errorf("%s: %s refuses the PKCS#8 that smx509.MarshalPKCS8PrivateKey wrote (%x): %v", c.Type, name, p8, err)
+			return fmt.Errorf("%s: %s refuses the PKCS#8 that smx509.MarshalPKCS8PrivateKey wrote (%x): %v", c.Type, pp.name, p8, err)
 		}
 		if err := sameSDKPriv(k.priv, got); err != nil {
-			return fmt.Errorf("%s: PKCS#8 round trip through %s: %v", c.Type, name, err)
+			return fmt.Errorf("%s: PKCS#8 round trip through %s: %v", c.Type, pp.name, err)
 		}
 	}
 
@@ -290,6 +297,42 @@ func checkKeyType(c typeCase, r *h.Rec) error {
 		if g, _, err := pkcs8.ParsePrivateKey(ep8, w); err == nil {
 			return fmt.Errorf("%s: encrypted PKCS#8 opens under a wrong password (%T)", c.Type, g)
 		}
+	}
+	return nil
+}
+
+// checkDSAPublic: smx509.ParsePKIXPublicKey also reads DSA public keys (no
+// encoder exists for them): a SubjectPublicKeyInfo assembled by the harness
+// must come back with exactly its numbers, as crypto/x509 reads it.
+func checkDSAPublic(c typeCase, r *h.Rec) error {
+	num := func(tag uint64, n int) *big.Int {
+		b := gen.Fill(gen.Mix(c.Seed, tag), n)
+		b[0] |= 0x80 // exercises the INTEGER sign octet
+		if c.Shape == "lz1" {
+			b[0] = 0x01
+		}
+		return new(big.Int).SetBytes(b)
+	}
+	p, q, g, y := num(1, 128), num(2, 20), num(3, 128), num(4, 128)
+	di := func(v *big.Int) []byte { return derTLV(0x02, derInt(v)) }
+	spki := derSeq(derSeq(derOID("1.2.840.10040.4.1"), derSeq(di(p), di(q), di(g))), derTLV(0x03, append([]byte{0}, di(y)...)))
+	got, err := smx509.ParsePKIXPublicKey(append([]byte{}, spki...))
+	if err != nil {
+		return fmt.Errorf("dsa: smx509.ParsePKIXPublicKey refuses a DSA SubjectPublicKeyInfo (%x): %v", spki, err)
+	}
+	k, ok := got.(*dsa.PublicKey)
+	if !ok || k.P.Cmp(p) != 0 || k.Q.Cmp(q) != 0 || k.G.Cmp(g) != 0 || k.Y.Cmp(y) != 0 {
+		return fmt.Errorf("dsa: smx509.ParsePKIXPublicKey returned %T with other numbers than the SubjectPublicKeyInfo %x holds", got, spki)
+	}
+	sg, err := x509.ParsePKIXPublicKey(spki)
+	if err != nil {
+		return fmt.Errorf("c14 harness: crypto/x509 refuses the harness-built DSA SubjectPublicKeyInfo: %v", err)
+	}
+	if s := sg.(*dsa.PublicKey); s.Y.Cmp(k.Y) != 0 || s.P.Cmp(k.P) != 0 || s.Q.Cmp(k.Q) != 0 || s.G.Cmp(k.G) != 0 {
+		return fmt.Errorf("dsa: smx509 and crypto/x509 read different numbers from %x", spki)
+	}
+	if _, err := smx509.MarshalPKIXPublicKey(k); err == nil {
+		r.Label("dsa-marshal-supported")
 	}
 	return nil
 }
